@@ -9,7 +9,7 @@ Extraction "../ocaml/model.ml"
   rewrite default_fuel N_to_string
   hook_count hook_names hook_tags known_classes var_prefix hook_sites
   directives_ok erase erase_ok lower first_diff_nospan plus_enabled tpl_enabled dup_effects
-  required_sites missing_sites hook_keys hygiene_issues shape_issues
+  required_sites missing_sites documented_lit_callers hook_keys hygiene_issues shape_issues
   directives_of after_directives is_injected_let program_body blocks_of
   roundtrip_ok norm_print strip_parens
   to_config prologue_text
